@@ -1085,7 +1085,9 @@ MANIFEST = dict(
          "refilled) before the injection, for every host type; option/tag lines below a single-node import (the "
          "copy is extended, the original, the remote source and other imports are not); groups extended later "
          "after unrelated nodes (path notation, re-opened group, later parse); hyphens/underscores/digits in node, "
-         "group and import names; all locally and through a remote file ($source and "
+         "group and import names; the same path injected repeatedly into existing hosts with modifications of the "
+         "source in between; injections delivering the empty string (empty source, text slice beyond the end) into "
+         "hosts that already have a text; float32/float64/float128 sources with 9-10 significant digits; all locally and through a remote file ($source and "
          "add_source); requests "
          "selecting none/several.  Plus explicit-state exploration of all DIP(env) chaining histories up to depth 3 "
          "(quick) / 4 (thorough) over 16 programs (incl. 3 failing ones and 2 parse_docs() steps that must leave the "
